@@ -113,3 +113,19 @@ V("C33-container-list-unverified","C33","pkg/services/container/server.go","""fu
 	if err := icrypto.VerifyRequestSignatures(req); err != nil {""","""func (s *Server) List(_ context.Context, req *protocontainer.ListRequest) (*protocontainer.ListResponse, error) {
 	if err := icrypto.VerifyRequestSignatures(req); err != nil && req.GetBody().GetOwnerId() == nil {""",rule="C33.R3")
 V("C33-setattr-verifies-other-sig","C33","pkg/services/container/server.go","if err := neofscrypto.VerifyMessageSignature(req.Body, req.BodySignature, nil); err != nil {\n\t\tvar e apistatus.SignatureVerification\n\t\te.SetMessage(\"invalid request signature: \" + err.Error())\n\t\treturn s.makeSetAttributeResponse(e)","if err := neofscrypto.VerifyMessageSignature(req.Body.Parameters, req.BodySignature, nil); err != nil {\n\t\tvar e apistatus.SignatureVerification\n\t\te.SetMessage(\"invalid request signature: \" + err.Error())\n\t\treturn s.makeSetAttributeResponse(e)",rule="C33.R3")
+
+SH="pkg/local_object_storage/shard/"
+V("C46-revert-fix-raw-read","C46",SH+"restore.go","_, err = io.ReadFull(r, data)","_, err = r.Read(data)",rule="C46.R1")
+V("C46-count-on-any-put-error","C46",SH+"restore.go","if err != nil && !IsErrObjectExpired(err) && !errors.Is(err, apistatus.ErrObjectAlreadyRemoved) {","if err != nil && !IsErrObjectExpired(err) && !errors.Is(err, apistatus.ErrObjectAlreadyRemoved) && !ignoreErrors {",rule="C46.R3")
+V("C46-length-big-endian","C46",SH+"restore.go","sz := binary.LittleEndian.Uint32(size[:])","sz := binary.BigEndian.Uint32(size[:])",rule="C46.R2")
+V("C47-revert-fix-wrap","C47",SH+"gc.go","if ne.epoch >= uint64(unpaidSince) && ne.epoch-uint64(unpaidSince) >= maxUnpaidEpochDelay {","if ne.epoch-uint64(unpaidSince) >= maxUnpaidEpochDelay {",rule="C47.R2")
+V("C47-payment-error-falls-through","C47",SH+"gc.go","""			l.Warn("cannot check payment status for container", zap.Stringer("cID", cID), zap.Error(err))
+			continue""","""			l.Warn("cannot check payment status for container", zap.Stringer("cID", cID), zap.Error(err))""",rule="C47.R1")
+V("C47-grace-two-epochs","C47",SH+"gc.go","const maxUnpaidEpochDelay = 3","const maxUnpaidEpochDelay = 2",rule="C47.R1")
+V("C47-engine-any-error","C47","pkg/local_object_storage/engine/container.go","if _, err = e.containerSource.Get(cnrStored); errors.As(err, new(apistatus.ContainerNotFound)) {","if _, err = e.containerSource.Get(cnrStored); err != nil {",rule="C47.R3")
+V("C47-policer-any-error","C47","pkg/services/policer/check.go","		if containercore.IsErrNotFound(err) {\n			err = p.deleteLocalObject(ctx, addrWithAttrs.Address, isEC)","		if containercore.IsErrNotFound(err) || errors.Is(err, context.Canceled) {\n			err = p.deleteLocalObject(ctx, addrWithAttrs.Address, isEC)",rule="C47.R3")
+V("C47-iserrnotfound-widened","C47","pkg/core/container/storage.go","	return errors.As(err, new(apistatus.ContainerNotFound))","	return errors.As(err, new(apistatus.ContainerNotFound)) || errors.As(err, new(apistatus.ServerInternal))",rule="C47.R4")
+V("C47-silent-order-test-first","C47",SH+"gc.go","""		if ne.epoch >= uint64(unpaidSince) && ne.epoch-uint64(unpaidSince) >= maxUnpaidEpochDelay {""","""		if uint64(unpaidSince) > ne.epoch {
+			continue
+		}
+		if delay := ne.epoch - uint64(unpaidSince); delay >= maxUnpaidEpochDelay {""",expect="silent")
